@@ -20,6 +20,7 @@
      EnterEnum                enum_step      replaces the type, only if it has items
      EnterAlias/ExitAlias     alias_step     always replaces the type
      EnterUnion/ExitUnion     union_step     always replaces the type
+     EnterView/ExitView       view_ent       (abstract views) always replaces the view
      EnterSimple_endpoint/ExitParams
                               ep_step        lookup-or-create, mergeAttrs, parameters and statements appended
      EnterEvent               event_step     lookup-or-create (is_pubsub), parameters and statements appended
@@ -65,6 +66,7 @@ Definition pk_tag : name := 3%positive.
 Definition dots_name : name := 4%positive.
 Definition empty_str : name := 5%positive.        (* the attribute value "" *)
 Definition mixin_key : name := 6%positive.        (* (app, mixin_key) : the app's Mixin2 list *)
+Definition abstract_tag : name := 7%positive.     (* the pattern "abstract" *)
 
 (* ---------- attribute values ---------- *)
 Inductive attrv := VS (s:name) | VA (l:list name).
@@ -76,19 +78,24 @@ Inductive entry := EN (k v:name) | ET (t:name) | EA (k:name) (l:list name).   (*
 Record fielddecl := FD { fd_name : name; fd_ty : name; fd_opt : bool; fd_attrs : list entry }.
 (* a body is the sequence of listener events: SOpen kind label .. SClose brackets the statements of a nested scope *)
 Inductive stmt := SA (t:name) | SC (app:appname) (ep:name) | SR (t:name) | SOpen (kind label:name) | SClose.
+(* md_inh: the attribute maps of the enclosing REST paths, outermost first (s.rest_attrs when the method is entered);
+   the text has no such thing - rest_eps fills it in, the harness writes methods with MDh *)
 Record methoddecl := MD { md_verb : name; md_attrs : list entry; md_annos : list anno; md_params : list name;
-                          md_query : list name; md_body : list stmt }.
+                          md_query : list name; md_body : list stmt; md_inh : list (gmap name attrv) }.
+Definition MDh verb a annos params query body : methoddecl := MD verb a annos params query body [].
 (* path segments as they appear in the endpoint name ("p1", "{id}"), the typed variables among them *)
-Inductive rnode := RN (segs:list name) (vars:list name) (methods:list methoddecl) (subs:list rnode).
+(* pa / pannos: `/path [attrs]:` and the `@k = v` lines of the path (written before its methods) *)
+Inductive rnode := RN (segs:list name) (vars:list name) (pa:list entry) (pannos:list anno) (methods:list methoddecl) (subs:list rnode).
 Inductive member :=
 | MT (table:bool) (n:name) (a:list entry) (annos:list anno) (fs:list fielddecl)  (* !type / !table: one block's share *)
 | ME (n:name) (a:list entry) (annos:list anno) (items:list (name * Z))           (* !enum *)
 | MAl (n:name) (a:list entry) (annos:list anno) (ty:name)                        (* !alias *)
 | MU (n:name) (a:list entry) (alts:list name)                                    (* !union *)
 | MP (n:name) (a:list entry) (annos:list anno) (params:list name) (body:list stmt)   (* simple endpoint *)
-| MV (n:name) (params:list name) (body:list stmt)                                (* <-> event *)
+| MV (n:name) (a:list entry) (params:list name) (body:list stmt)                 (* <-> event *)
 | MR (r:rnode)                                                                   (* REST tree *)
 | MX (target:name)                                                               (* -|> App *)
+| MVw (n:name) (annos:list anno) (sg:name)                                       (* !view n(..) -> .. [~abstract] *)
 | MS (key:name) (pub:appname) (evt:name) (a:list entry) (annos:list anno) (body:list stmt)  (* Pub -> Evt: *)
 | MA (x:anno)                                                                    (* @k = v in the application body *)
 | MW.                                                                            (* `...` as the only content of a block *)
@@ -102,7 +109,10 @@ Inductive typeent :=
 | TRec (rel:bool) (a:attrs) (fs:gmap name field)
 | TEnum (a:attrs) (items:gmap name Z)
 | TAlias (a:attrs) (ty:name)
-| TUnion (a:attrs) (alts:list name).
+| TUnion (a:attrs) (alts:list name)
+(* app.Views[name]: an abstract view; kept in the same map as the types under names interned with another prefix
+   ("v:Name"), so a view and a type never meet under one key - sg is the spelling of parameters and return type *)
+| TView (a:attrs) (sg:name).
 Definition epkey := (option name * list name)%type.        (* (None,[n]) = named; (Some verb, path) = REST *)
 Record endpoint := Ep { e_pubsub : bool; e_rest : bool; e_source : option appname; e_attrs : attrs;
                         e_params : list name; e_query : list name; e_url : list name; e_stmts : list stmt }.
@@ -207,7 +217,7 @@ Definition pk_update (mode:pkmode) (old:option (list name)) (new:list name) : op
   end.
 
 Definition tattrs (t:typeent) : attrs :=
-  match t with TRec _ a _ => a | TEnum a _ => a | TAlias a _ => a | TUnion a _ => a end.
+  match t with TRec _ a _ => a | TEnum a _ => a | TAlias a _ => a | TUnion a _ => a | TView a _ => a end.
 Definition tattrs_step (a:list entry) (a0:attrs) : attrs :=
   match a with [] => a0 | _ => merge_tattrs (make_attrs a) a0 end.
 
@@ -225,6 +235,7 @@ Definition type_g (mode:pkmode) (table:bool) (a:list entry) (annos:list anno) (f
   | TEnum _ items => (Some (TEnum a1 items), p)
   | TAlias _ ty => (Some (TAlias a1 ty), p)
   | TUnion _ alts => (Some (TUnion a1 alts), p)
+  | TView _ sg => (Some (TView a1 sg), p)      (* never met: view names are interned apart from type names *)
   end.
 
 Definition set_types (ap:app) (ts:gmap name typeent) : app := App (a_long ap) (a_attrs ap) ts (a_eps ap).
@@ -249,6 +260,10 @@ Definition enum_ent (a:list entry) (annos:list anno) (items:list (name * Z)) : o
 Definition alias_ent (a:list entry) (annos:list anno) (ty:name) : option typeent :=
   Some (TAlias (annos_step annos (make_attrs a)) ty).
 Definition union_ent (a:list entry) (alts:list name) : option typeent := Some (TUnion (make_attrs a) alts).
+(* EnterView: Views[name] = a NEW view (whatever was there is gone), its annotations, then ExitView merges
+   {patterns: ["abstract"]} into the attributes *)
+Definition view_ent (annos:list anno) (sg:name) : option typeent :=
+  Some (TView (merge_attrs {[ patterns_key := VA [abstract_tag] ]} (annos_step annos ∅)) sg).
 
 (* ---------- endpoints ---------- *)
 Definition hattrs_step (a:list entry) (a0:attrs) : attrs :=
@@ -261,24 +276,34 @@ Definition ep_f (a:list entry) (annos:list anno) (params:list name) (body:list s
 Definition ep_step (n:name) (a:list entry) (annos:list anno) (params:list name) (body:list stmt) (ap:app) : app :=
   set_eps ap (partial_alter (ep_f a annos params body) (None, [n]) (a_eps ap)).
 
-Definition event_f (params:list name) (body:list stmt) (e0:option endpoint) : option endpoint :=
+(* EnterEvent: `ep.Attrs = makeAttributeArray(..)` - attributes on the event line REPLACE what the endpoint has *)
+Definition event_f (a:list entry) (params:list name) (body:list stmt) (e0:option endpoint) : option endpoint :=
   let e := default (new_ep true false) e0 in
-  Some (Ep (e_pubsub e) (e_rest e) (e_source e) (e_attrs e) (e_params e ++ params) (e_query e) (e_url e) (e_stmts e ++ body)).
-Definition event_step (n:name) (params:list name) (body:list stmt) (ap:app) : app :=
-  set_eps ap (partial_alter (event_f params body) (None, [n]) (a_eps ap)).
+  Some (Ep (e_pubsub e) (e_rest e) (e_source e) (match a with [] => e_attrs e | _ => make_attrs a end)
+           (e_params e ++ params) (e_query e) (e_url e) (e_stmts e ++ body)).
+Definition event_step (n:name) (a:list entry) (params:list name) (body:list stmt) (ap:app) : app :=
+  set_eps ap (partial_alter (event_f a params body) (None, [n]) (a_eps ap)).
 
 (* the REST tree flattened to (endpoint key, url parameters of the whole path, method) in walk order; the renderer
    writes the methods of a node before its sub-paths (the grammar would allow them mixed) *)
-Fixpoint rest_eps (prefix uvars:list name) (r:rnode) : list (epkey * list name * methoddecl) :=
+Fixpoint rest_eps (prefix uvars:list name) (inh:list attrs) (r:rnode) : list (epkey * list name * methoddecl) :=
   match r with
-  | RN segs vars methods subs =>
+  | RN segs vars pa pannos methods subs =>
       let p := prefix ++ segs in
       let u := uvars ++ vars in
-      map (fun m => ((Some (md_verb m), p), u, m)) methods ++ flat_map (rest_eps p u) subs
+      (* EnterRest_endpoint pushes makeAttributeArray(..) on s.rest_attrs; the path's annotations go to that map
+         (peekAttrs, RestEndpointPath) - the renderer writes them before the methods, which read the stack *)
+      let inh' := inh ++ [annos_step pannos (make_attrs pa)] in
+      map (fun m => ((Some (md_verb m), p), u,
+                     MD (md_verb m) (md_attrs m) (md_annos m) (md_params m) (md_query m) (md_body m) inh')) methods
+      ++ flat_map (rest_eps p u inh') subs
   end.
 
 Definition method_f (u:list name) (m:methoddecl) (e0:option endpoint) : option endpoint :=
-  let attrs_new := merge_attrs (make_attrs (md_attrs m)) {[ patterns_key := VA [rest_tag] ]} in
+  (* {patterns: ["rest"]}, then `for _, parentAttrs := range s.rest_attrs { mergeAttrs(parentAttrs, attrs) }`, then
+     the method's own attributes *)
+  let inherited := fold_left (fun acc p => merge_attrs p acc) (md_inh m) {[ patterns_key := VA [rest_tag] ]} in
+  let attrs_new := merge_attrs (make_attrs (md_attrs m)) inherited in
   let e := default (new_ep false true) e0 in
   Some (Ep (e_pubsub e) (e_rest e) (e_source e) (annos_step (md_annos m) (merge_attrs attrs_new (e_attrs e)))
            (e_params e ++ md_params m) (e_query e ++ md_query m)
@@ -306,9 +331,10 @@ Definition member_step (mode:pkmode) (an:appname) (m:member) (ap:app) (pk:pkmap)
   | ME n a annos items => repl_step an n (enum_ent a annos items) ap pk
   | MAl n a annos ty => repl_step an n (alias_ent a annos ty) ap pk
   | MU n a alts => repl_step an n (union_ent a alts) ap pk
+  | MVw n annos sg => repl_step an n (view_ent annos sg) ap pk
   | MP n a annos params body => (ep_step n a annos params body ap, pk)
-  | MV n params body => (event_step n params body ap, pk)
-  | MR r => (fold_left (fun ap x => method_step x ap) (rest_eps [] [] r) ap, pk)
+  | MV n a params body => (event_step n a params body ap, pk)
+  | MR r => (fold_left (fun ap x => method_step x ap) (rest_eps [] [] [] r) ap, pk)
   | MX x => (ap, partial_alter (fun old => Some (default [] old ++ [x])) (an, mixin_key) pk)
   | MS key pub evt a annos body => (set_eps ap (partial_alter (sub_f pub a annos body) (None, [key]) (a_eps ap)), pk)
   | MA x => (App (a_long ap) (anno_step x (a_attrs ap)) (a_types ap) (a_eps ap), pk)
@@ -367,3 +393,60 @@ Definition blocks_in_order (files:list filedesc) (order:list name) : list block 
 
 Definition denote_files (mode:pkmode) (files:list filedesc) (root:name) : state :=
   denote_blocks mode (blocks_in_order files (flatten_order files root)).
+
+(* ---------- compiled modules in the import closure (.pb / .pb.json / .textpb) ----------
+   parseSpecs does not walk such a file: `mergo.Merge(listener.module, compiled)` (github.com/imdario/mergo v0.3.15,
+   no options) fills what the module built SO FAR (dst) lacks from the compiled one (src):
+     map            key by key: absent in dst -> the src entry; present in both -> the two entries merged (pointers to
+                    structs are followed, structs field by field)
+     slice          dst stays unless it is empty (Mixin2, PrimaryKey.AttrName, Param, Stmt, QueryParam, UrlParam,
+                    Attribute_Array.Elt, OneOf.Type)
+     string / bool / number / nil pointer   dst stays unless it is the zero value
+   The compiled module is what the file's blocks denote on their own (postProcess of that compile is outside the
+   model).  Entries of different kinds under one name (a string attribute against an array, a type against a table,
+   ...) make mergo fail or panic in some combinations; the model keeps dst there and the harness never generates
+   them in a layout with a compiled file. *)
+Definition mergo_list {A} (d s:list A) : list A := match d with [] => s | _ => d end.
+Definition mergo_opt {A} (d s:option A) : option A := match d with Some x => Some x | None => s end.
+Definition mergo_attrv (d s:attrv) : attrv :=
+  match d, s with
+  | VS x, VS y => if Pos.eqb x empty_str then VS y else VS x
+  | VA [], VA l => VA l
+  | _, _ => d
+  end.
+Definition mergo_attrs (d s:attrs) : attrs := union_with (fun x y => Some (mergo_attrv x y)) d s.
+Definition mergo_field (d s:field) : field := Fld (f_ty d) (f_opt d || f_opt s) (mergo_attrs (f_attrs d) (f_attrs s)).
+Definition mergo_type (d s:typeent) : typeent :=
+  match d, s with
+  | TRec r a fs, TRec r' a' fs' =>
+      if Bool.eqb r r' then TRec r (mergo_attrs a a') (union_with (fun x y => Some (mergo_field x y)) fs fs')
+      else TRec r (mergo_attrs a a') fs
+  | TEnum a it, TEnum a' it' => TEnum (mergo_attrs a a') (union_with (fun x y => Some (if Z.eqb x 0 then y else x)) it it')
+  | TAlias a ty, _ => TAlias (mergo_attrs a (tattrs s)) ty
+  | TUnion a al, TUnion a' al' => TUnion (mergo_attrs a a') (mergo_list al al')
+  | TRec r a fs, _ => TRec r (mergo_attrs a (tattrs s)) fs
+  | TEnum a it, _ => TEnum (mergo_attrs a (tattrs s)) it
+  | TUnion a al, _ => TUnion (mergo_attrs a (tattrs s)) al
+  | TView a sg, _ => TView (mergo_attrs a (tattrs s)) sg
+  end.
+Definition mergo_ep (d s:endpoint) : endpoint :=
+  Ep (e_pubsub d || e_pubsub s) (e_rest d || e_rest s) (mergo_opt (e_source d) (e_source s))
+     (mergo_attrs (e_attrs d) (e_attrs s)) (mergo_list (e_params d) (e_params s)) (mergo_list (e_query d) (e_query s))
+     (mergo_list (e_url d) (e_url s)) (mergo_list (e_stmts d) (e_stmts s)).
+Definition mergo_app (d s:app) : app :=
+  App (mergo_opt (a_long d) (a_long s)) (mergo_attrs (a_attrs d) (a_attrs s))
+      (union_with (fun x y => Some (mergo_type x y)) (a_types d) (a_types s))
+      (union_with (fun x y => Some (mergo_ep x y)) (a_eps d) (a_eps s)).
+Definition mergo_mod (d s:module) : module := union_with (fun x y => Some (mergo_app x y)) d s.
+(* PrimaryKey.AttrName / Mixin2: a non-empty list of dst stays *)
+Definition mergo_pk (d s:pkmap) : pkmap := union_with (fun x y => Some (mergo_list x y)) d s.
+Definition mergo_state (d s:state) : state := (mergo_mod (fst d) (fst s), mergo_pk (snd d) (snd s)).
+
+(* one file of the closure: walked block by block, or merged as a compiled module when its name is in `pbs` *)
+Definition file_blocks (files:list filedesc) (f:name) : list block :=
+  match file_lookup files f with Some (_, bs) => bs | None => [] end.
+Definition file_step (mode:pkmode) (files:list filedesc) (pbs:list name) (s:state) (f:name) : state :=
+  if in_names f pbs then mergo_state s (denote_blocks mode (file_blocks files f))
+  else fold_left (step mode) (flat_map atoms_of_block (file_blocks files f)) s.
+Definition denote_files_pb (mode:pkmode) (files:list filedesc) (pbs:list name) (root:name) : state :=
+  fold_left (file_step mode files pbs) (flatten_order files root) (∅, ∅).
